@@ -235,6 +235,7 @@ def _run_killable(n, jobs, hard_limit_s):
     results = [None] * n
     pending = list(range(n))
     running = {}          # idx -> (process, parent_conn, start)
+    retried = {}
     while pending or running:
         while pending and len(running) < jobs:
             idx = pending.pop(0)
@@ -252,6 +253,12 @@ def _run_killable(n, jobs, hard_limit_s):
                     results[idx] = None
                 done.append(idx)
             elif not p.is_alive():
+                # the process may have sent its result and exited between the two tests above
+                if conn.poll(0.5):
+                    try:
+                        results[idx] = conn.recv()
+                    except EOFError:
+                        results[idx] = None
                 done.append(idx)
             elif time.time() - t0 > hard_limit_s:
                 p.kill()
@@ -264,6 +271,12 @@ def _run_killable(n, jobs, hard_limit_s):
             p, conn, _t = running.pop(idx)
             p.join(timeout=5)
             conn.close()
+            if results[idx] is None and retried.get(idx, 0) < 1:
+                # a family process that vanished (killed by the system, crash inside a solver
+                # library) is run once more before it is reported
+                retried[idx] = retried.get(idx, 0) + 1
+                pending.append(idx)
+                continue
             if results[idx] is None:
                 results[idx] = {"family": _SPECS[idx].name, "props": sorted(_SPECS[idx].props), "functions": _SPECS[idx].functions,
                                 "optional": _SPECS[idx].optional, "error": "engine: the family process died without a result",
